@@ -3,6 +3,7 @@
 // stay silent, or become unreachable; the node ticks on its own. Scheduler state is read at
 // quiescent points and compared with what the property allows.
 #include "worlds/w2_rig.hpp"
+#include "worlds/swarm_variant.hpp"
 
 using namespace wl;
 
@@ -251,6 +252,7 @@ Scenario make_c24() {
     s.rule = "plan = attempt limit, initial/max back-off, success interval, per-provider parallel limit, tick period, chunk TTL, 1..2 providers + 4..22 ops (assigned-fetch announce incl. re-announce, valid chunk reply, provider session drop, reconnect, waits up to 30 s); non-trivial = a fetch was re-announced while in flight, a provider became unreachable, or a back-off after a repeated failure was observed; distinct = plan hash";
     s.gen = gen_c24; s.exec = exec_c24; s.kernel_knobs = rig_knobs;
     s.quick_runs = 2500; s.thorough_runs = 100000; s.quick_secs = 55; s.thorough_secs = 900;
+    add_swarm_variant(s, 15);
     return s;
 }
 Registrar reg_c24(make_c24);
